@@ -18,6 +18,7 @@ import (
 	"github.com/ethereum/go-ethereum/crypto"
 	layertypes "github.com/tellor-io/layer/types"
 	"github.com/tellor-io/layer/x/bridge/types"
+	registrytypes "github.com/tellor-io/layer/x/registry/types"
 
 	"cosmossdk.io/collections"
 	storetypes "cosmossdk.io/core/store"
@@ -961,7 +962,7 @@ func (k Keeper) EncodeOracleAttestationData(
 	copy(queryIdBytes32[:], queryId)
 
 	// Convert value to bytes
-	valueBytes, err := hex.DecodeString(value)
+	valueBytes, err := hex.DecodeString(registrytypes.Remove0xPrefix(value))
 	if err != nil {
 		return nil, err
 	}
